@@ -357,23 +357,23 @@ PROPS = {
         model_limits='the library primitives (ed25519 / secp256k1 / go-ethereum / btcec point parsing, address hashes, signature verification, EIP-155 sender recovery) are uninterpreted parameters answered by the real libraries in the correspondence run; the JSON *decoder* is not modelled (unser is a proof device; acceptance of non-canonical encodings is C05); Go < 1.22 escapes \\b and \\f as \\u0008 / \\u000c, so nodes built with different toolchains would disagree on RawBytes() of such memos (outside the model); internal transactions created by block hooks (ExpireProposals / FinalizeProposals) do not pass Validate and are outside this property; OLVM: what remains outside the full-strength statements is (a) the cryptography itself (EthLib.sender is a parameter; go-ethereum enforces low-s) and (b) that the public key named in the signature entry is pinned through its address only (olvm_signer_key_through_address)'),
     'C19': dict(
         lean_modules=['OLP.Props.C19'], namespaces=['OLP.Props.C19'],
-        required_theorems=['verdict_iff_threshold', 'required_is_ceiling', 'tally_follows_verdict', 'guilty_only_by_verdict',
+        required_theorems=['verdict_iff_threshold', 'required_is_ceiling', 'votes_are_of_currently_active', 'verdict_from_active_votes_alone',
+                           'tally_follows_verdict', 'guilty_only_by_verdict', 'no_active_no_verdict', 'tracker_is_a_set',
                            'one_vote_per_validator', 'second_vote_rejected', 'only_active_can_allege_or_vote',
-                           'guilty_frozen_until_release', 'frozen_cannot_stake_unstake_withdraw', 'guilty_cannot_stake_until_release',
-                           'penalty_exact_and_bounty_le_penalty', 'release_only_after_time', 'release_only_after_time_partial',
-                           'tally_order_independent', 'guilty_dropped_from_set_partial', 'votes_are_of_currently_active_partial',
-                           'cleanup_keeps_requests_partial',
-                           'departed_voter_still_counts', 'innocent_without_crossing_if_float_inexact', 'frozen_elected_inside_first_window',
-                           'frozen_owner_withdraws_naming_other_address', 'missed_votes_record_lifts_release_time', 'empty_id_request_dropped'],
+                           'guilty_frozen_until_release', 'frozen_cannot_stake_unstake_withdraw', 'frozen_owner_cannot_withdraw',
+                           'guilty_cannot_stake_until_release', 'penalty_exact_and_bounty_le_penalty',
+                           'release_only_after_time', 'guilty_released_only_after_time', 'guilty_verdict_starts_the_clock',
+                           'tally_order_independent', 'guilty_dropped_from_set',
+                           'cleanup_keeps_requests_partial', 'duplicate_request_dropped'],
         run=run_c19, replay=replay_olh('alleg'), level='proof',
         assumptions=[
-            'float64 / big.Float: the expressions of ExecuteAllegationTracker (required votes = ceil(active*vote%), yes/required > alleg%, no/required > 1-alleg%, penalty = Int(stake*base%+0.5)) are PARAMETERS of the model (FloatOps); the theorems about thresholds and amounts assume they agree with exact rationals (Exact F). The harness evaluates the same Go expressions on every tally and counts every point where they differ from the exact reading (distribution float:*): they differ only for `no/required > 1 - pct/dec` at exact ties (known finding KF-C19-2); the penalty is exact for stake*base% < 2^53',
-            'block times are whole seconds in UTC, so LastValidatorHistory.FrozenAt.AddDate(0,0,d) is +86400*d seconds',
+            'big.Float: the penalty Int(stake*base%/dec + 0.5) is a PARAMETER of the model (FloatOps.penalty); penalty_exact_and_bounty_le_penalty assumes it equals the exact rounding floor((2*stake*pct+dec)/(2*dec)) (Exact F). The harness evaluates the same big.Float expression on every tally line and counts every stake for which it differs from the exact reading (distribution float:penalty-differs-from-exact, never observed; exact for stake*base% < 2^53). The thresholds (required votes, guilty / innocent tests) are integer arithmetic in the code since 1d3139c and carry no assumption',
+            'block times are whole seconds in UTC, so LastValidatorHistory.FrozenAt.AddDate(0,0,d) is +86400*d seconds; block times do not decrease (TimeFrom premise of guilty_released_only_after_time)',
             'the heap order in which GetEndBlockUpdate pops the validators is an input of the election model (it is C10\'s subject); the harness obtains it from the repo\'s own queue types on the committed records',
-            'transaction admission (signatures, fee payer has a validator record) enters the model as two flags computed by the harness from the transaction bytes and the pre-state; balances, maturity and the validator-record side of STAKE/UNSTAKE/WITHDRAW belong to C11 (only their allegation guards and delegation-store effects are modelled)',
-            'State.IterateRange walks the keys of the COMMITTED tree only (values read through the caches): the model carries the committed request ids explicitly; two allegations against one address in one block both succeed and CleanTracker removes the second at the block end',
+            'transaction admission (signatures, fee payer has a validator record) enters the model as two flags computed by the harness from the transaction bytes and the pre-state; balances, maturity and the validator-record side of STAKE/UNSTAKE/WITHDRAW belong to C11 (only their allegation guards and delegation-store effects are modelled; the validator records the WITHDRAW owner guard iterates are an input)',
+            'State.IterateRange walks the keys of the COMMITTED tree only (values read through the caches): the model carries the committed request ids explicitly; two allegations against one address in one block both succeed and CleanTracker removes the second at the block end (cleanup_keeps_requests_partial / duplicate_request_dropped: the one clause still proved under a forced hypothesis)',
         ],
-        model_limits='the monitor checks "drops out of the validator set" on the application\'s own election (update list and status records) and, for validators that keep a record, on the simulated Tendermint set after 6 blocks; a validator whose record was deleted at power 0 is never purged again (observed; C10). Errors of balance.AddToAddress / delayHandleUnstake inside the tally (the `continue` paths after them) are not modelled (never observed). Six deviations from the property as stated are confirmed on the implementation and listed in known_findings.json; their witnesses (proved counterexamples in Props/C19.lean) are replayed in every run.'),
+        model_limits='the monitor checks "drops out of the validator set" on the application\'s own election (update list and status records) at every height and, for validators that keep a record, on the simulated Tendermint set after 6 consecutive blocks IN WHICH SOMEBODY IS ELECTED: with nobody elected the application keeps the last set (c5836bc, Tendermint cannot run with an empty set), so a convicted last validator stays in Tendermint\'s set until somebody else qualifies (by design). Errors of balance.AddToAddress / delayHandleUnstake inside the tally (the `continue` paths after them) are not modelled (never observed); the refused-debit branch of the slash (MinusFromAddress is all-or-nothing since 7abde80, charged to the current stake address since ebb3d1d) is modelled and proved but not reached by generated histories (the staking handlers keep the three records equal). The eight regression scenarios of the repaired defects (corpus/C19, harness/apph/alleg_script.go) run first in every check and must end in the repaired outcome without any monitor signature.'),
     'C14': dict(
         lean_modules=['OLP.Props.C14'], namespaces=['OLP.Props.C14'],
         required_theorems=['wf_init', 'wf_reachable', 'active_copy_is_exclusive', 'stage_monotone', 'stage_monotone_history',
